@@ -6,13 +6,21 @@ open SafeNet.Quorum SafeNet.Gen.Quorum
 
 def dotted (l : List Nat) : String := ".".intercalate (l.map toString)
 
+/-- transaction id `2*b` prints as `b`, its look-alike with another signature `2*b+1` as `bs` -/
+def txIdStr (i : Nat) : String := toString (i / 2) ++ (if i % 2 = 1 then "s" else "")
+
+def parseTxId (s : String) : Option Nat :=
+  match s.toList.reverse with
+  | 's' :: r => (String.ofList r.reverse).toNat?.map (fun b => 2 * b + 1)
+  | _ => s.toNat?.map (fun b => 2 * b)
+
 def kindChar : Kind → String
   | .chunk => "c" | .txn => "t" | .reg => "r" | .pad => "s" | .paid => "p"
 
 def tok : Content → String
   | .junk n => s!"x{n}"
   | .hdr k n => s!"h{kindChar k}{n}"
-  | .txs l => "t" ++ dotted l
+  | .txs l => "t" ++ ".".intercalate (l.map txIdStr)
   | .reg b s ops => s!"r{b}{if s then "g" else "b"}" ++ String.join (ops.map fun o => s!".{o}")
   | .pad o c v ok => s!"s{o}.{c}.{v}{if ok then "g" else "b"}"
 
@@ -42,7 +50,10 @@ def parseTok (s : String) : Option Content :=
     match kind, natOfChars r with
     | some k, some n => some (.hdr k n)
     | _, _ => none
-  | 't' :: r => (parseNats (String.ofList r)).bind fun l => if l.all (· < 6) then some (.txs l) else none
+  | 't' :: r =>
+    let body := String.ofList r
+    let ids : Option (List Nat) := if body.isEmpty then some [] else (body.splitOn ".").mapM parseTxId
+    ids.bind fun l => if l.all (· < 12) then some (.txs l) else none
   | 'r' :: r =>
     match (String.ofList r).splitOn "." with
     | hd :: opsS =>
